@@ -1516,6 +1516,120 @@ fn fonts_section(cx: &mut Ctx) {
     }
 }
 
+// =====================================================================================
+// B2. Fvar::user_to_normalized / skrifa location_to_slice over all axes, with REUSED (dirty) output slices
+// =====================================================================================
+fn fvar_bytes_tagged(axes: &[(u32, i32, i32, i32)]) -> Vec<u8> {
+    let mut v = fvar_bytes(&axes.iter().map(|a| (a.1, a.2, a.3)).collect::<Vec<_>>());
+    for (i, a) in axes.iter().enumerate() {
+        v[16 + 20 * i..16 + 20 * i + 4].copy_from_slice(&a.0.to_be_bytes());
+    }
+    v
+}
+fn u2n_multi_section(cx: &mut Ctx) {
+    use skrifa::MetadataProvider;
+    let tags: [u32; 4] = [u32::from_be_bytes(*b"wght"), u32::from_be_bytes(*b"wdth"), u32::from_be_bytes(*b"opsz"), u32::from_be_bytes(*b"ZZZZ")];
+    let recs = [(100 << 16, 400 << 16, 900 << 16), (0, 0, 1000 << 16), (-(1 << 16), 0, 1 << 16), (50 << 16, 100 << 16, 100 << 16), (8 << 16, 14 << 16, 144 << 16)];
+    let n = if cx.thorough { 400 } else { 80 };
+    for i in 0..n {
+        let naxes = cx.rng.range(1, 4) as usize;
+        // tags of the font's axes: usually distinct, sometimes one tag twice (the code handles that explicitly)
+        let axes: Vec<(u32, i32, i32, i32)> = (0..naxes)
+            .map(|k| {
+                let t = if cx.rng.chance(1, 5) { tags[cx.rng.below(3) as usize] } else { tags[k % 3] };
+                let r = *cx.rng.pick(&recs);
+                (t, r.0, r.1, r.2)
+            })
+            .collect();
+        let with_avar = i % 3 != 0;
+        let nmaps = if with_avar { if cx.rng.chance(1, 4) { cx.rng.range(0, naxes as i64) as usize } else { naxes } } else { 0 };
+        let maps: Vec<Vec<(i16, i16)>> = (0..nmaps).map(|_| { let k = if cx.rng.chance(2, 3) { 1 } else { cx.rng.below(6) }; gen_map(cx, k).0 }).collect();
+        let fb = fvar_bytes_tagged(&axes);
+        let ab = avar_bytes(&maps);
+        let font = {
+            let mut b = FontBuilder::new();
+            b.add_raw(Tag::new(b"fvar"), fb.clone());
+            if with_avar {
+                b.add_raw(Tag::new(b"avar"), ab.clone());
+            }
+            b.build()
+        };
+        let caxes = clist(axes.iter(), |a| format!("({}, {}, {}, {})", a.0, cz(a.1 as i128), cz(a.2 as i128), cz(a.3 as i128)));
+        let cmaps_all = if with_avar { format!("(Some {})", clist(maps.iter(), |m| cmaps(m))) } else { "None".to_string() };
+        // one output vector per slice length, REUSED across the requests below
+        let lens: Vec<usize> = vec![naxes, naxes.saturating_sub(1), naxes + 1, naxes + 3, 0];
+        let mut reused: Vec<Vec<i16>> = lens.iter().map(|l| (0..*l).map(|_| cx.rng.range(-32768, 32767) as i16).collect()).collect();
+        let mut reused_skrifa: Vec<Vec<i16>> = reused.clone();
+        for req in 0..5 {
+            // settings: full, partial, empty, duplicates of one tag, unknown tags only
+            let settings: Vec<(u32, i32)> = match req {
+                0 => axes.iter().map(|a| (a.0, a.3)).collect(), // every axis at its maximum: leaves non-zero coordinates behind
+                1 => vec![],
+                _ => {
+                    let k = cx.rng.range(0, 4) as usize;
+                    (0..k)
+                        .map(|_| {
+                            let t = if cx.rng.chance(1, 4) { tags[3] } else { tags[cx.rng.below(3) as usize] };
+                            let r = *cx.rng.pick(&recs);
+                            let v = match cx.rng.below(4) { 0 => r.0, 1 => r.2, 2 => r.1, _ => (cx.rng.range(-4000, 8000) * 16384) as i32 };
+                            (t, v)
+                        })
+                        .collect()
+                }
+            };
+            cx.st.count(if settings.is_empty() { "u2n-multi.settings.empty" } else if settings.iter().all(|s| s.0 == tags[3]) { "u2n-multi.settings.unknown-only" } else if settings.len() < naxes { "u2n-multi.settings.partial" } else { "u2n-multi.settings.full-or-more" });
+            let csettings = clist(settings.iter(), |s| format!("({}, {})", s.0, cz(s.1 as i128)));
+            for (li, len) in lens.iter().enumerate() {
+                let run_raw = |buf: &[i16]| -> Result<Vec<i16>, String> {
+                    let (fb, ab, settings, mut out) = (fb.clone(), ab.clone(), settings.clone(), buf.iter().map(|v| F2Dot14::from_bits(*v)).collect::<Vec<_>>());
+                    catch(move || {
+                        let f = Fvar::read(FontData::new(&fb)).unwrap();
+                        let a = Avar::read(FontData::new(&ab)).unwrap();
+                        f.user_to_normalized(if with_avar { Some(&a) } else { None }, settings.iter().map(|s| (Tag::from_be_bytes(s.0.to_be_bytes()), Fixed::from_bits(s.1))), &mut out);
+                        out.iter().map(|v| v.to_bits()).collect()
+                    })
+                };
+                let run_skrifa = |buf: &[i16]| -> Result<Vec<i16>, String> {
+                    let (font, settings, mut out) = (font.clone(), settings.clone(), buf.iter().map(|v| F2Dot14::from_bits(*v)).collect::<Vec<_>>());
+                    catch(move || {
+                        let fr = FontRef::new(&font).unwrap();
+                        fr.axes().location_to_slice(settings.iter().map(|s| (Tag::from_be_bytes(s.0.to_be_bytes()), (s.1 as f64 / 65536.0) as f32)), &mut out);
+                        out.iter().map(|v| v.to_bits()).collect()
+                    })
+                };
+                let fresh = run_raw(&vec![0i16; *len]);
+                for (api, dirty_in, res) in [("raw", reused[li].clone(), run_raw(&reused[li])), ("skrifa", reused_skrifa[li].clone(), run_skrifa(&reused_skrifa[li]))] {
+                    cx.st.evaluations += 1;
+                    cx.st.count(&format!("u2n-multi.{}.len{}", api, if *len == naxes { "=axes" } else if *len < naxes { "<axes" } else { ">axes" }));
+                    if dirty_in.iter().any(|v| *v != 0) {
+                        cx.st.count("u2n-multi.dirty-buffer");
+                    }
+                    cx.st.nontrivial(&format!("{:?}{:?}{:?}{:?}{}", axes, maps, settings, dirty_in, api));
+                    let out = match &res { Ok(v) => v.iter().map(|x| *x as i128).collect::<Vec<_>>(), Err(_) => vec![-999] };
+                    cx.cw.push(format!("CU2NMulti {} {} {} {} {}", caxes, cmaps_all, csettings, cz16(&dirty_in), czlist(out)));
+                    match (&res, &fresh) {
+                        (Ok(r), Ok(f)) => {
+                            if r != f {
+                                cx.st.oracle_failure(json!({"key": format!("u2n-stale-buffer:{}", api), "what": "the result depends on what the output slice held before the call", "axes": format!("{:?}", axes), "settings": format!("{:?}", settings), "buffer_before": dirty_in, "got": r, "fresh": f}));
+                            }
+                            for (j, v) in r.iter().enumerate() {
+                                let unset = j >= naxes || !settings.iter().any(|s| s.0 == axes[j].0);
+                                if unset && *v != 0 {
+                                    cx.st.oracle_failure(json!({"key": format!("u2n-unset-axis-nonzero:{}", api), "what": "an axis without a setting (or an excess entry) is not at the default 0", "axis_index": j, "axes": format!("{:?}", axes), "settings": format!("{:?}", settings), "buffer_before": dirty_in, "got": r}));
+                                }
+                            }
+                        }
+                        _ => cx.st.oracle_failure(json!({"key": format!("u2n-panic:{}", api), "what": "user_to_normalized panics", "axes": format!("{:?}", axes), "settings": format!("{:?}", settings)})),
+                    }
+                    if let Ok(r) = res {
+                        if api == "raw" { reused[li] = r } else { reused_skrifa[li] = r }
+                    }
+                }
+            }
+        }
+    }
+}
+
 fn main() {
     silence_panics();
     let args: Vec<String> = std::env::args().collect();
@@ -1532,6 +1646,7 @@ fn main() {
     let mut cx = Ctx { st: Stats::new(), cw, rng: Rng::new(seed), thorough };
     norm_section(&mut cx);
     avar_section(&mut cx);
+    u2n_multi_section(&mut cx);
     tent_section(&mut cx);
     builder_section(&mut cx);
     dsim_section(&mut cx);
